@@ -22,6 +22,176 @@ fn sig_hist_all(l: &Ledger) -> Vec<u64> {
     vec![hist_sig(l)]
 }
 
+// ---- C03 -------------------------------------------------------------------------------------
+
+fn sweep_entry(e: &[(String, String)]) -> Option<crate::plan::Kv> {
+    e.iter().find(|(k, _)| k == "sweep").map(|(_, v)| crate::plan::parse_kv(v))
+}
+
+fn check_c03(l: &Ledger, e: &[(String, String)], s: &PropSpec) -> Vec<Violation> {
+    crate::oracle_tap::check_c03(l, e, s)
+}
+
+fn sig_c03(l: &Ledger) -> Vec<u64> {
+    crate::oracle_tap::c03_cases(l)
+}
+
+fn c03() -> PropSpec {
+    let mut p = Profile::base("hostile");
+    p.p_corrupt = 350;
+    p.p_splice = 60;
+    p.p_srv_hostile = 250;
+    p.p_srv_lt = 250;
+    p.p_srv_integ = 150;
+    p.mech_w = [2, 2, 1, 1, 6];
+    p.inj_w = [3, 2, 1, 2, 4, 2, 1, 1, 0, 2];
+    p.n_inj = (0, 5);
+    p.n_app = (1, 6);
+    p.p_drop = 50;
+    p.p_srv_silent = 30;
+    p.p_retry_ignore = 30;
+    p.p_swarm_off = 100;
+    p.p_perfect = 0;
+    PropSpec {
+        id: "C03",
+        tag: 3,
+        level: "exploration",
+        profile: p,
+        opts: RunOpts { probe_late_responses: true, probe_capacity: true, ..Default::default() },
+        check: check_c03,
+        signature: sig_c03,
+        rule: "a hostile/buggy peer and a mutating network against a client in the middle of real conversations: structure-aware faults on valid in-flight messages (bit/byte flips, truncation, extension, header/attribute/nested length edits, multi-byte UTF-8 and quoting characters injected into string attributes, spliced attributes), hostile server strings around the nonce-cookie offsets, random and STUN-like injected bytes; every call into the client is under catch_unwind, every hostile datagram is also decoded in all 16 decoder configurations (size and prefix relations), through get_input_text and through the stream reassembler in a seeded chunking; rejected hostile buffers are additionally removed in a twin run to show the client remained usable; distinct = distinct (credential-state tag, fault kind, library decode outcome, client outcome, outstanding requests); trivial (not counted) = bytes undecodable at the header",
+        quick_runs: 150_000,
+        thorough_runs: 4_000_000,
+        required_probes: &[],
+        extra: None,
+        run: None,
+        assumptions: COMMON_ASSUMPTIONS,
+    }
+}
+
+// ---- C04 -------------------------------------------------------------------------------------
+
+fn check_c04(l: &Ledger, e: &[(String, String)], _s: &PropSpec) -> Vec<Violation> {
+    if let Some(kv) = sweep_entry(e) {
+        return crate::oracle_tap::replay_sweep_bits(&kv);
+    }
+    // along the simulated conversations: real and reference verifier must agree on every datagram the
+    // client accepted or rejected for authentication reasons (the C07 / C08 oracles), and what the client
+    // itself builds must carry the RFC HMAC (C13 oracle) -- reported here under C04 keys
+    let mut out = vec![];
+    for v in oracle_cred::check_c13(l) {
+        if v.key.contains("does-not-verify") {
+            out.push(Violation { prop: "C04", key: v.key.replace("C13/", "C04/client-built-mac:"), step: v.step, detail: v.detail });
+        }
+    }
+    for v in oracle_cred::check_c07(l).into_iter().chain(oracle_cred::check_c08(l)) {
+        if v.key.contains("unauthenticated") && v.key.contains("delivered") {
+            out.push(Violation { prop: "C04", key: format!("C04/client-accepted:{}", v.key), step: v.step, detail: v.detail.clone() });
+        }
+        if v.key.contains("authenticated-") && v.key.contains("not-delivered") {
+            out.push(Violation { prop: "C04", key: format!("C04/client-rejected:{}", v.key), step: v.step, detail: v.detail });
+        }
+    }
+    out
+}
+
+fn sig_c04(l: &Ledger) -> Vec<u64> {
+    // authenticated datagrams that crossed a corrupting channel
+    let mut out = vec![];
+    for st in &l.steps {
+        if let Call::Recv { bytes, fault, .. } = &st.call {
+            if let Some(s) = oracle_cred::see(bytes) {
+                if (s.has_mi || s.has_sha) && !fault.is_empty() {
+                    out.push(hash_of(&(s.p.types(), fault.clone(), matches!(st.result, CallResult::Ok), crate::world::mech_to_str(&l.cfg.mech))));
+                }
+            }
+        }
+    }
+    out
+}
+
+fn c04() -> PropSpec {
+    let mut p = Profile::base("corrupting-channel");
+    p.mech_w = [0, 3, 1, 1, 4];
+    p.p_corrupt = 250;
+    p.p_splice = 80;
+    p.p_srv_integ = 120;
+    p.p_fp = 500;
+    p.n_app = (1, 5);
+    p.p_drop = 50;
+    p.p_srv_silent = 30;
+    PropSpec {
+        id: "C04",
+        tag: 4,
+        level: "fault_enumeration",
+        profile: p,
+        opts: RunOpts::default(),
+        check: check_c04,
+        signature: sig_c04,
+        rule: "authenticated traffic (short-term, long-term MD5 and SHA-256 keys over generated user/realm/password; tails MI, SHA256, MI+SHA256, each with and without FINGERPRINT) between the real client and the reference server over a corrupting channel; systematic part: for sampled in-flight messages whose MAC verifies independently, the untampered message must be accepted by decode(with_key, with_validation) and validate(get_input_text), a key derived from a password one character off must be rejected, and every single-bit fault in every byte of the protected prefix (except the two header-length bytes) and of the MAC is applied in turn and must never be accepted as authenticated (real vs reference verifier, differential); distinct = distinct (algorithm, key kind, attribute shape, fault region, verdicts)",
+        quick_runs: 60_000,
+        thorough_runs: 2_000_000,
+        required_probes: &[],
+        extra: Some(crate::oracle_tap::extra_c04),
+        run: None,
+        assumptions: COMMON_ASSUMPTIONS,
+    }
+}
+
+// ---- C09 -------------------------------------------------------------------------------------
+
+fn check_c09(l: &Ledger, e: &[(String, String)], _s: &PropSpec) -> Vec<Violation> {
+    if let Some(kv) = sweep_entry(e) {
+        return crate::oracle_tap::replay_sweep_c09(&kv);
+    }
+    crate::oracle_tap::check_c09_ledger(l)
+}
+
+fn sig_c09(l: &Ledger) -> Vec<u64> {
+    let mut out = vec![];
+    for st in &l.steps {
+        if let Call::Recv { bytes, .. } = &st.call {
+            if let Ok(p) = crate::wire::parse(bytes) {
+                let t = p.types();
+                let adm = crate::wire::admitted(&t);
+                if adm.iter().any(|a| !*a) {
+                    let kinds: Vec<u8> = t.iter().map(|x| match *x { 0x0008 => 1, 0x001c => 2, 0x8028 => 3, _ => 0 }).collect();
+                    out.push(hash_of(&(kinds, matches!(st.result, CallResult::Ok))));
+                }
+            }
+        }
+    }
+    out
+}
+
+fn c09() -> PropSpec {
+    let mut p = Profile::base("splice");
+    p.p_splice = 350;
+    p.p_corrupt = 20;
+    p.p_srv_integ = 120;
+    p.p_fp = 500;
+    p.mech_w = [2, 3, 1, 1, 3];
+    p.n_app = (1, 5);
+    p.inj_w = [2, 1, 1, 3, 0, 0, 1, 1, 0, 2];
+    PropSpec {
+        id: "C09",
+        tag: 9,
+        level: "exploration",
+        profile: p,
+        opts: RunOpts::default(),
+        check: check_c09,
+        signature: sig_c09,
+        rule: "on-path splice faults: 1-4 attributes drawn from {ordinary, unknown, MI, MI-SHA256, FINGERPRINT}, each with right or wrong MAC/CRC for its position, appended to valid in-flight messages with every base tail; at the wire tap the decoded attribute list of every decoder configuration is compared with an independent 3-flag admission automaton (and the validation verdict with the independently verified admitted attributes), and what the client delivers must contain exactly the admitted attributes; systematic part: every suffix up to length 3 (quick) / 4 (thorough) over 7 tokens appended to each of the 8 base tails; non-trivial = the message carries at least one inadmissible attribute; distinct = distinct sequence of attribute kinds x client verdict; coverage of the 32 (automaton state, next kind) pairs is required",
+        quick_runs: 150_000,
+        thorough_runs: 4_000_000,
+        required_probes: &[],
+        extra: Some(crate::oracle_tap::extra_c09),
+        run: None,
+        assumptions: COMMON_ASSUMPTIONS,
+    }
+}
+
 // ---- C05 -------------------------------------------------------------------------------------
 
 fn check_c05(l: &Ledger, _e: &[(String, String)], _s: &PropSpec) -> Vec<Violation> {
@@ -464,7 +634,10 @@ fn c08() -> PropSpec {
 
 // ---- C10 -------------------------------------------------------------------------------------
 
-fn check_c10(l: &Ledger, _e: &[(String, String)], _s: &PropSpec) -> Vec<Violation> {
+fn check_c10(l: &Ledger, e: &[(String, String)], _s: &PropSpec) -> Vec<Violation> {
+    if let Some(kv) = sweep_entry(e) {
+        return crate::oracle_tap::replay_sweep_bits(&kv);
+    }
     oracle_cred::check_c10_client(l)
 }
 
@@ -507,11 +680,11 @@ fn c10() -> PropSpec {
         opts: RunOpts::default(),
         check: check_c10,
         signature: sig_c10,
-        rule: "client half: seeded random plans with a fingerprint-configured client under every mechanism; responses and indications arrive with valid, corrupted (bit/byte/length faults in flight), absent or spliced FINGERPRINT; distinct = distinct (fault kind, message attribute shape, mechanism, independent CRC verdict, client verdict, class)",
+        rule: "codec half: for sampled in-flight messages carrying FINGERPRINT (built by the real client and by the reference server) the independent CRC-32 must equal the attribute and every single-bit fault at every bit position plus four byte-substitution classes (0x00, 0xFF, +1, pseudo-random) at every byte are applied in turn; the altered bytes must never be accepted as carrying a valid FINGERPRINT (validate(get_input_text), decode(with_validation)); client half: seeded random plans with a fingerprint-configured client under every mechanism; responses and indications arrive with valid, corrupted (bit/byte/length faults in flight), absent or spliced FINGERPRINT; distinct = distinct (fault kind, message attribute shape, mechanism, independent CRC verdict, client verdict, class)",
         quick_runs: 300_000,
         thorough_runs: 6_000_000,
         required_probes: &[],
-        extra: None,
+        extra: Some(crate::oracle_tap::extra_c10),
         run: None,
         assumptions: COMMON_ASSUMPTIONS,
     }
@@ -705,7 +878,7 @@ fn c17() -> PropSpec {
 }
 
 pub fn all() -> Vec<PropSpec> {
-    vec![c05(), c06(), c07(), c08(), c10(), c11(), c12(), c13(), c15(), c16(), c17()]
+    vec![c03(), c04(), c05(), c06(), c07(), c08(), c09(), c10(), c11(), c12(), c13(), c15(), c16(), c17()]
 }
 
 pub fn find(id: &str) -> Option<PropSpec> {
